@@ -2,6 +2,7 @@
 import Walrus.Props.C03
 import Walrus.Props.C08
 import Walrus.Props.C09
+import Walrus.Props.C10
 import Walrus.Props.C11
 import Walrus.Props.C12
 import Walrus.Props.C14
